@@ -352,6 +352,31 @@ Proof.
   destruct w_times as [H1 _]. destruct w_lookups as [H2 [H3 [H4 _]]]. repeat split; assumption.
 Qed.
 
+(* KNOWN FINDING sorted_view_keyed_by_stale_lifecycle_start (known_findings.d/C16.json; reproduced on the real binary, corpus
+   session corpus_overtaking(true)).  With sort:true the order of all_msgs is made by the sort thread, whose key is the start
+   it has cached for the lifecycle + timestamp, capped at the reception time ([sort_key]); the lookup compares
+   start_time + timestamp with the table's CURRENT start_time.  When the start moves after the sorter cached it, all_msgs is
+   in the sorter's order but not partitioned by the lookup's times, and the answer is a position behind a stream message that
+   is not before the requested time.  The class: all_msgs is not partitioned at the requested time; the positive theorem on
+   its complement is C16_lookup_time_table_first_not_before (hypothesis [partitioned_at]) *)
+Definition C16_KnownClass_not_partitioned_at {M} (lc_of ts_us_of rt_of : M -> N) (tab : list lc_entry) (all : list M) (t : N) : Prop :=
+  ~ partitioned_at all (msg_time lc_of ts_us_of rt_of tab) t.
+
+Theorem C16_lookup_time_in_stale_sorted_view_refuted :
+  exists (cached final : list lc_entry) (all : list (N * N * N)) (s : sctx (N * N * N)) (t : N),
+    inv all s /\
+    ordered_by (sort_key w_lc w_ts w_rt cached) all = true /\
+    C16_KnownClass_not_partitioned_at w_lc w_ts w_rt final all t /\
+    let p := lookup_time_tab w_lc w_ts w_rt final all s t in
+    exists q m, q < p /\ stream_msg all s q = Ok m /\ t <= msg_time w_lc w_ts w_rt final m.
+Proof.
+  exists st_cached, st_final, st_all, w_s, 105.
+  destruct st_witness as [H1 [_ [H3 [H4 H5]]]].
+  split; [|split; [exact H1|split; [exact st_not_partitioned|]]].
+  - split; [vm_compute; discriminate|]. split; [intros E; vm_compute in E; discriminate|reflexivity].
+  - cbv zeta. rewrite H3. exists 8, (1, 13, 108). split; [lia|]. split; [exact H4|]. rewrite H5. lia.
+Qed.
+
 (* non-vacuity: the hypothesis of C16_lookup_time_reads_only_start_time on two tables that differ in everything but
    start_time (the second one knows nothing of a resume and has a further entry), and the partition at the requested time *)
 Example C16_nonvacuous_time_base :
@@ -596,6 +621,7 @@ Print Assumptions C16_lookup_time_table_first_not_before.
 Print Assumptions C16_time_ordered_is_partitioned_at_every_time.
 Print Assumptions C16_presented_start_differs_only_for_moved_resumes.
 Print Assumptions C16_resume_start_time_is_not_the_lookup_key.
+Print Assumptions C16_lookup_time_in_stale_sorted_view_refuted.
 Print Assumptions C16_nonvacuous_time_base.
 Print Assumptions C16_before_fix_search_skipped_a_position.
 Print Assumptions C16_before_fix_search_found_nothing_without_filters.
